@@ -153,7 +153,12 @@ func receiveSingle(s *Session, n *com.Packet) {
 			if cout.Enabled {
 				s.log.Info("[%s/Cr0] Client indicated shutdown, acknowledging and closing Session.", s.ID)
 			}
+			// NOTE: Like Task, queue the acknowledgement under the lock, as another
+			//       handler with the same Shutdown may close the send queue (which
+			//       happens under the lock) between the closed check and the send.
+			s.lock.Lock()
 			s.write(true, &com.Packet{ID: SvShutdown, Job: 1, Device: s.ID})
+			s.lock.Unlock()
 			s.s.Remove(s.ID, false)
 			s.state.Set(stateShutdownWait)
 		} else {
